@@ -568,7 +568,7 @@ fn budget_for(tier: Tier) -> Budget {
     let scale: f64 = std::env::var("VERIF_SCALE").ok().and_then(|s| s.parse().ok()).unwrap_or(1.0);
     match tier {
         Tier::Quick => Budget { runs: (8000.0 * scale) as usize, cap: 8_000, k_limit: 8 },
-        Tier::Thorough => Budget { runs: (150_000.0 * scale) as usize, cap: 40_000, k_limit: 10 },
+        Tier::Thorough => Budget { runs: (40_000.0 * scale) as usize, cap: 15_000, k_limit: 10 },
     }
 }
 
